@@ -1,4 +1,6 @@
 // gen3.cpp -- plan generators: C03 (validity probes), C13 (builders), C15 (TECMP), C16 (status tracker)
+#include <map>
+
 #include "gen_common.h"
 
 namespace sim
@@ -45,6 +47,8 @@ Plan genProbe(const std::string& prop, int tier, uint64_t batchSeed, uint64_t id
                     continue;
                 Item& op = g.addOp(OP_PROBE, -1, 0);
                 op.set("cls", cls).set("kind", cls).set("len", baseLen).set("id", id).set("ilen", v).set("iwhich", w);
+                if (r.chance(1, 3))
+                    op.set("izero", r.range(1, 4));
                 if (r.chance(1, 4))
                     op.set("cut", r.range(0, baseLen));
             }
@@ -249,6 +253,7 @@ Plan genStatus(const std::string& prop, int tier, uint64_t batchSeed, uint64_t i
     const bool enFault = r.chance(1, 2);
     const size_t nOps = (many ? 30 : 4) + r.below(tier ? 80 : 40);
     int lastRemovedDev = -1;
+    std::map<int64_t, Item> lastStatus;
     for (size_t o = 0; o < nOps; ++o)
     {
         const uint64_t sel = r.below(100);
@@ -276,10 +281,37 @@ Plan genStatus(const std::string& prop, int tier, uint64_t batchSeed, uint64_t i
                     m.set("kind", wire::K_IFSTAT).set("len", static_cast<int64_t>(minLenOf(wire::K_IFSTAT)) + extra / 2).set("pifid", ifs[r.below(ifs.size())]);
                 else if (ks < 9)
                     m.set("kind", wire::K_CAN).set("len", 16 + r.range(0, 8));
-                else
+                else if (r.chance(1, 2))
                     m.set("kind", 0).set("mtype", 3).set("ptype", r.pick<int64_t>({3, 4, 0xFF})).set("len", r.range(1, 40));
+                else  // control / vendor-defined / unknown message types re-use the small payload type numbers
+                    m.set("kind", 0).set("mtype", r.pick<int64_t>({2, 2, 0xFF, 0xFF, 4, 0x7F})).set("ptype", r.pick<int64_t>({1, 2, 2, 3})).set("len", r.range(1, 80));
                 m.set("id", g.msgId()).set("ts", static_cast<int64_t>(g.pickTs())).set("ifid", static_cast<int64_t>(r.below(1000))).set("flags", g.pickFlags());
                 m.set("build", static_cast<int64_t>(r.below(3)));
+                // one update in five is the device's previous status message again with exactly ONE field changed
+                {
+                    const int64_t slot = static_cast<int64_t>(di) * 1000003 + m.get("kind") * 101 + m.get("pifid", -1);
+                    auto it = lastStatus.find(slot);
+                    if (it != lastStatus.end() && (m.get("kind") == wire::K_CMSTAT || m.get("kind") == wire::K_IFSTAT) && r.chance(1, 5))
+                    {
+                        m = it->second;
+                        switch (r.below(4))
+                        {
+                            case 0:
+                                m.set("ts", m.get("ts") + 1);
+                                break;
+                            case 1:
+                                m.set("ifid", m.get("ifid") ^ (1LL << r.below(16)));  // the vendor id of a status message
+                                break;
+                            case 2:
+                                m.set("flags", m.get("flags") ^ 0x01);
+                                break;
+                            default:
+                                break;  // byte-identical repetition
+                        }
+                    }
+                    if (m.get("kind") == wire::K_CMSTAT || m.get("kind") == wire::K_IFSTAT)
+                        lastStatus[slot] = m;
+                }
                 op.sub.push_back(std::move(m));
             }
             if (enFault && r.chance(1, 4))
